@@ -1,40 +1,11 @@
-(* What srcgen reads off unmarshaler/unmarshaler.go on every run (Gen/UnmarshalSrc.v), given a meaning:
-   the decision tree of Unmarshaler.resolveKind is interpreted over a configuration, and the statement groups
-   of unmarshal / unmarshalCause that Model/Unmarshal.v transcribes must all be present, in order, with
-   nothing else around them. *)
+(* What srcgen reads off unmarshaler/converter.go on every run (Gen/UnmarshalSrc.v): the statement groups of the
+   dispatcher tryConvertFieldValue and of the JSON route tryConvertViaJSON that Model/Convert.v transcribes must all
+   be present, in order, with nothing else around them.  (unmarshaler/unmarshaler.go itself is translated statement
+   by statement into Gen/GoLiteSrc.v and proved equal to Model/Unmarshal.v in Proofs/UnmarshalSrc.v.) *)
 From Coq Require Import String List Bool.
 From Errdef Require Import Base.Str Base.Outcome Model.Core Model.Convert Model.Unmarshal Gen.UnmarshalSrc.
 Import ListNotations.
 
-Definition strict_lookup (c : ucfg) (k : string) : ures udef :=
-  match resolve_kind_def (u_defs c) k with
-  | Some d => UOk d
-  | None => UFail [{| fl_class := cls_kind; fl_kind := k; fl_field := "" |}]
-  end.
-
-(* [dflt]: the default definition when the resolver was found to be a DefaultResolver on the way down *)
-Fixpoint rk_interp (t : rktree) (c : ucfg) (dflt : option udef) (k : string) : ures udef :=
-  match t with
-  | RKIfDefault a b =>
-      match u_default c with
-      | Some d => rk_interp a c (Some d) k
-      | None => rk_interp b c None k
-      end
-  | RKIfStrict a b => if u_strict c then rk_interp a c dflt k else rk_interp b c dflt k
-  | RKStrictLookup => strict_lookup c k
-  | RKOrDefault =>
-      match dflt with
-      | Some d => UOk (match resolve_kind_def (u_defs c) k with Some x => x | None => d end)
-      | None => UFail []     (* ResolveKindOrDefault exists on a DefaultResolver only *)
-      end
-  | RKUnknown => UFail []
-  end.
-
-Definition g_resolve_kind_u (c : ucfg) (k : string) : ures udef := rk_interp resolve_kind_tree c None k.
-
 Definition unmarshal_source_ok : bool :=
-  forallb snd unmarshal_groups && unmarshal_is_exactly_these &&
-  forallb snd unmarshal_cause_groups && unmarshal_cause_is_exactly_these &&
   forallb snd dispatch_groups && dispatch_is_exactly_these &&
-  forallb snd via_json_groups && via_json_is_exactly_these &&
-  definition_from_message_is_resolve_kind && entry_decodes_then_unmarshals.
+  forallb snd via_json_groups && via_json_is_exactly_these.
